@@ -822,21 +822,28 @@ def long_configs():
             for gam in (0.9, 0.95):
                 for zeta in (0.0, 0.002):
                     out.append({"kind": kind, "nt": nt, "gamma": gam, "zeta": zeta, "baseline": bl, "op": "none", "hg": 0.5, "bound": 1.0})
+    # many arms: the initial phase alone (2 x 126 counted rounds) is longer than the 250-step window
+    out.append({"kind": "gen", "nt": 126, "gamma": 0.95, "zeta": 0.002, "baseline": "last", "op": "none", "hg": 0.5, "bound": 1.0, "rounds": 126 + 252 + 45})
+    out.append({"kind": "ducb", "nt": 126, "gamma": 0.9, "zeta": 0.0, "baseline": "none", "op": "none", "hg": 0.5, "bound": 1.0, "rounds": 252 + 45})
     return out
 
 
-def long_behaviour(cfg, seed, upto=LONG_ROUNDS):
+def long_behaviour(cfg, seed, upto=None):
     """One long behaviour of the real bandit on a non-stationary random bandit problem (rewards are multiples of 1/16 in
     [0, 1], arm means drift).  Every choice after the initial rounds is judged.  -> (choices judged, of them beyond round
     250, first failure or None)"""
     rng = np.random.default_rng([seed, cfg["nt"], int(cfg["gamma"] * 100), int(cfg["zeta"] * 1000), len(cfg["kind"] + cfg["baseline"])])
     ad = SelAdapter({"kind": cfg["kind"], "nt": cfg["nt"], "gamma": cfg["gamma"], "baseline": cfg["baseline"], "op": cfg["op"], "hg": cfg["hg"]},
                     zeta=cfg["zeta"], upper_bound=cfg["bound"])
-    d = ad.ducb
+    upto = cfg.get("rounds", LONG_ROUNDS) if upto is None else upto
     means = rng.uniform(0.2, 0.8, size=cfg["nt"])
     judged = late = 0
+    # the history of COUNTED rounds is kept here, from the calls made - not read from the object, which may store it
+    # differently: DUCBGeneralized forgets the choice of an arm's first (baseline) round; the counted reward is the
+    # raw reward minus the baseline (configurations here: baseline none / last, no operator)
+    h_ch, h_rw, seen = [], [], [[] for _ in range(cfg["nt"])]
     for rnd in range(upto):
-        pre_ch, pre_rw = list(d.chosen_arms), list(d.rewards)
+        pre_ch, pre_rw = list(h_ch), list(h_rw)
         try:
             a = ad.select()
         except Exception as e:
@@ -846,13 +853,25 @@ def long_behaviour(cfg, seed, upto=LONG_ROUNDS):
             best = max(idx)
             judged += 1
             late += len(pre_rw) > 250
-            if not (idx[a] == best or idx[a] >= best - LONG_ULPS * np.spacing(abs(best))):
+            if not (0 <= a < cfg["nt"]) or not (idx[a] == best or idx[a] >= best - LONG_ULPS * np.spacing(abs(best))):
                 return judged, late, {"round": rnd, "what": f"round {rnd} (history {len(pre_rw)}): arm {a} chosen, documented index {idx}",
                                       "code": "not_a_maximiser_long" if len(pre_rw) > 250 else "not_a_maximiser"}
+        elif a != len(pre_rw) % cfg["nt"]:
+            return judged, late, {"round": rnd, "what": f"round {rnd} (counted rounds {len(pre_rw)} < 2 x {cfg['nt']} arms): arm {a} chosen, every arm in turn expected",
+                                  "code": "initial_rounds_not_in_turn"}
         if rnd % 40 == 39:  # the problem is non-stationary
             means = np.clip(means + rng.uniform(-0.3, 0.3, size=cfg["nt"]), 0.05, 0.95)
         r = float(np.clip(np.round((means[a] + rng.uniform(-0.25, 0.25)) * 16) / 16, 0.0, 1.0))
         ad.feedback(r)
+        h_ch.append(a)
+        if cfg["kind"] == "gen":
+            if not seen[a]:
+                h_ch.pop()
+            else:
+                h_rw.append(r - (seen[a][-1] if cfg["baseline"] == "last" else 0.0))
+            seen[a].append(r)
+        else:
+            h_rw.append(r)
     return judged, late, None
 
 
@@ -868,7 +887,7 @@ def run_long(rep):
         if fail:
             rep.violation(f"{cls}:long:{fail['code']}", f"{cls} {cfg}: {fail['what']}",
                           {"kind": "sched:long", "cfg": cfg, "seed": rep.seed, "round": fail["round"]})
-        elif late < LONG_ROUNDS - 251 - 3 * cfg["nt"]:
+        elif late < min(cfg.get("rounds", LONG_ROUNDS) - 251 - 3 * cfg["nt"], 40):
             raise tlc.MachineryError(f"long behaviour {cfg} judged only {late} choices beyond round 250")
     rep.traces += tot
     rep.extra["sched_long_behaviours"] = {"behaviours": len(long_configs()), "rounds": LONG_ROUNDS, "choices_judged": tot, "beyond_round_250": late_tot}
@@ -914,33 +933,95 @@ def run_zeta(rep, graphs, quick):
     return cases
 
 
-def _window_job(nt):
-    c = _cfg(KIND="ducb", NT=nt, GAMMA=S("QOne"), REWARDS=S("RewConst"), MAXROUNDS=262, MAXREJ=0, EMIT=True, TIE="first")
-    return nt, c, tlc.run("Scheduler", tlc.cfg_text(constants=c, invariants=["Aligned"]), workers=1, tag=f"sched-window{nt}")
+def _win_norm(v, W=250):
+    """What the documented behaviour depends on: the last W counted rounds (the bandit may keep more), their number while
+    it is below W, and the rest of the projection."""
+    v = dict(v)
+    n = len(v["rewards"])
+    v["chosen"], v["rewards"] = list(v["chosen"][max(0, n - W):]), list(v["rewards"][-W:])
+    return v
+
+
+def _window_replay(emitted, p):
+    """The model's single behaviour on ONE live object: choice and window-normalised state after every call.
+    -> (calls made, first violation or None)"""
+    ad = SelAdapter(p)
+    path = []
+    if graph.canon(_win_norm(sel_project(ad))) != graph.canon(_win_norm(emitted[0]["pre"])):
+        return 0, {"code": "initial_state_differs", "what": "fresh selector differs from the model's initial state", "path": [{"op": "<construct>"}]}
+    by_pre = {}
+    for e in emitted:
+        by_pre.setdefault(graph.canon(e["pre"]), []).append(e)
+    chain, cur = [], graph.canon(emitted[0]["pre"])
+    while cur in by_pre:
+        outs = by_pre.pop(cur)
+        moves = [e for e in outs if graph.canon(e["post"]) != cur]
+        if len(moves) > 1:
+            raise tlc.MachineryError("window model is not a single behaviour")
+        chain += [e for e in outs if graph.canon(e["post"]) == cur] + moves  # rejected out-of-turn calls first
+        if not moves:
+            break
+        cur = graph.canon(moves[0]["post"])
+    if len(chain) != len(emitted):
+        raise tlc.MachineryError("window model is not a single behaviour")
+    for n_, e in enumerate(chain):
+        path.append({"op": e["op"], "args": e["args"], "exp": e["exp"]})
+        try:
+            sel_step(ad, e["op"], e["args"], e["exp"], e["pre"], e["post"])
+            got, want = _win_norm(sel_project(ad)), _win_norm(e["post"])
+            if graph.canon(got) != graph.canon(want):
+                bad = sorted(k for k in want if got.get(k) != want[k])
+                raise Mismatch(f"state after {e['op']} differs from model in {bad}", code="state[" + "+".join(bad) + "]")
+        except Mismatch as m:
+            return n_ + 1, {"code": m.code, "what": m.what, "path": path}
+        except Exception as ex:
+            return n_ + 1, {"code": f"exception:{type(ex).__name__}", "what": f"{e['op']} raised {ex!r}"[:300], "path": path}
+    return len(emitted), None
+
+
+def _window_job(kind, nt, rounds):
+    c = _cfg(KIND=kind, NT=nt, GAMMA=S("QOne"), REWARDS=S("RewConst"), MAXROUNDS=rounds, MAXREJ=0, EMIT=True, TIE="first")
+    # the per-arm vectors of a many-armed bandit are folded recursively: give TLC's worker a deeper Java stack
+    return kind, nt, c, tlc.run("Scheduler", tlc.cfg_text(constants=c, invariants=["Aligned"]), workers=1, tag=f"sched-window-{kind}{nt}",
+                                env={"JAVA_TOOL_OPTIONS": "-Xmx8g -Xss256m"})
+
+
+def window_jobs(quick):
+    """(kind, arms, selections).  Two arms: the only thing that makes the bandit leave arm 0 is another arm falling out of
+    the 250-step window.  126 arms: the initial phase (every arm twice = 252 counted rounds) is itself longer than the
+    window, so a round counter derived from the *stored* history would never leave it; for DUCBGeneralized the 126
+    baseline rounds come first."""
+    jobs = [("ducb", 2, 262), ("gen", 126, 126 + 252 + 14)]
+    if not quick:
+        jobs += [("ducb", 3, 262), ("gen", 2, 2 + 262), ("ducb", 126, 252 + 30)]
+    return jobs
 
 
 def run_window(rep, results):
-    """The 250-step window: with constant rewards all arms tie for ever, so the only thing that makes the bandit leave
-    arm 0 is another arm falling out of the window.  One deterministic behaviour of 262 rounds, replayed edge by edge."""
+    """The 250-step window: with constant rewards all arms tie for ever.  One deterministic behaviour per configuration,
+    replayed edge by edge (choice and projected state after every call)."""
     tot = 0
-    for nt, c, r in results:
-        rep.add_tlc(r, f"Scheduler sel ducb window NT={nt} (262 rounds, constant reward)")
+    for kind, nt, c, r in results:
+        rep.add_tlc(r, f"Scheduler sel {kind} window NT={nt} ({c['MAXROUNDS']} selections, constant reward)")
         if not r.ok:
             rep.violation(f"spec:Scheduler:{r.violated}", f"design-level violation {r.violated} (window)", r.error_trace[:3000])
             continue
         G = graph.Graph(r.emitted)
-        forced = sum(1 for k, es in G.out.items() for e in es if e[0] == "Select" and len(G.state[k]["rewards"]) >= 2 * nt and [0, 1] in G.state[k]["freq"])
-        if not forced:
+        sel_states = [G.state[k] for k, es in G.out.items() for e in es if e[0] == "Select"]
+        forced = sum(1 for st in sel_states if len(st["rewards"]) >= 2 * nt and [0, 1] in st["freq"])
+        beyond = sum(1 for st in sel_states if len(st["rewards"]) >= max(2 * nt, 251))
+        if nt <= 3 and not forced:
             raise tlc.MachineryError("window model never reaches an arm without weight in the window")
+        if nt > 3 and beyond < 5:
+            raise tlc.MachineryError(f"window model NT={nt}: only {beyond} choices after the initial phase with more than 250 counted rounds")
         p = p_of(c)
-        res = graph.cover(G, G.roots()[0], lambda: SelAdapter(p), sel_step, sel_project)
-        tot += res["edges_tested"]
-        for v in res["violations"][:1]:
-            path = v["path"]
-            rep.violation(f"DUCB:window:{v['code'] if not _diff_fields(v) else 'state[' + '+'.join(_diff_fields(v)) + ']'}",
-                          f"DUCB window (NT={nt}) after {len(path)} calls: {v['what']}",
-                          {"kind": "sched:sel", "p": {**p, "gamma": qj(p["gamma"]), "hg": qj(p["hg"])}, "path": path, "want": None})
-        rep.extra[f"sched_window_forced_choices_nt{nt}"] = forced
+        cls = CLASS_OF[kind]
+        n_done, v = _window_replay(r.emitted, p)
+        tot += n_done
+        if v is not None:
+            rep.violation(f"{cls}:window:{v['code']}", f"{cls} window (NT={nt}) after {len(v['path'])} calls: {v['what']}",
+                          {"kind": "sched:window", "p": {**p, "gamma": qj(p["gamma"]), "hg": qj(p["hg"])}, "path": v["path"]})
+        rep.extra[f"sched_window_{kind}_nt{nt}"] = {"forced_choices": forced, "choices_after_initial_phase_beyond_250_rounds": beyond}
     rep.traces += tot
     return tot
 
@@ -1053,7 +1134,7 @@ def run_sched(rep):
     with ThreadPoolExecutor(WORKERS) as ex:  # all TLC runs of the state machines, a few at a time
         f_models = [ex.submit(_model_job, j) for j in model_jobs(quick)]
         f_graphs = [ex.submit(_gen_graph, n, c) for n, c in sel_configs(quick)]
-        f_window = [ex.submit(_window_job, nt) for nt in ((2,) if quick else (2, 3))]
+        f_window = [ex.submit(_window_job, *j) for j in window_jobs(quick)]
         traces, by, calls = run_traces(rep, quick)  # meanwhile: the real schedulers
         run_models(rep, [f.result() for f in f_models])
         graphs, edges, nontrivial = run_selectors(rep, quick, [f.result() for f in f_graphs])
@@ -1072,7 +1153,7 @@ def run_sched(rep):
     rep.assumptions += [
         f"scheduler: D-UCB beyond the 250-step window with gamma in {{0.9, 0.95}} (24 behaviours of {LONG_ROUNDS} rounds, DUCB and DUCBGeneralized, 2 and 3 arms, zeta in {{0, 0.002}}, drifting random rewards from the seed) is checked by order only: every choice maximises an independent float64 evaluation of the documented index (window 250, absolute exponents) up to {LONG_ULPS} ulp (two 250-term sums, division, sqrt/log)",
         "scheduler: D-UCB with zeta>0 is only checked by order: the chosen arm maximises an independent float64 evaluation of the documented index up to 4 ulp (sqrt/log are not evaluable in TLA+)",
-        "scheduler: selectors <= 3 arms and <= 11 rounds exhaustively (250-step window by one 262-round behaviour with constant rewards); schedulers <= 4 tasks, dyadic kappa, thresholds +-1, scripted learner (real learners are judged by the loop part)",
+        "scheduler: selectors <= 3 arms and <= 11 rounds exhaustively (250-step window by single behaviours with constant rewards on one live selector: 2 arms / 262 rounds, and 126 arms, whose initial phase of 252 counted rounds is longer than the window; compared state = the last 250 counted rounds); schedulers <= 4 tasks, dyadic kappa, thresholds +-1, scripted learner (real learners are judged by the loop part)",
         "scheduler: SMT pools and counters are read from the local variables of smt_stage1/smt_stage2/train_active_mt at every train_st call (names are part of the binding)",
         "scheduler: warm-up hand-over: the learning_starts argument of every recorded train_st call is compared exactly (train_uts: exploring_starts; train_smt / train_active_mt: their learning_starts unchanged, as the code documents a plain threshold); that the learner compares it with its absolute step counter is the modelled contract of the scripted learner (the real learners' warm-up is judged by the loop part)",
         "scheduler: train_uts has no bookkeeping of its own; its totals are exact only if the learner reports start+executed (runs with a learner reporting one short are recorded under uts_learner_reports_one_short, not judged)",
@@ -1111,6 +1192,17 @@ def replay_sched(d, rep):
             for k in bad:
                 print(f"   {CLASS_OF[p['kind']]}.{k}: real {got.get(k)}  model {want[k]}")
             return 1
+        return 0
+    if kind == "sched:window":
+        p = _p_from_json(d["p"])
+        ad = SelAdapter(p)
+        for n_, st in enumerate(d["path"]):
+            try:
+                sel_step(ad, st["op"], st["args"], st["exp"], None, None)
+            except Mismatch as m:
+                print(f"   after {n_ + 1} calls: {m.what}")
+                return 1
+        print("   every choice as in the model; counted history kept by the object:", len(ad.ducb.rewards))
         return 0
     if kind == "sched:trace":
         t = run_scheduler(d["scenario"])
